@@ -112,6 +112,7 @@ public:
     {
       _loop.detach();
     }
+    _ioThreadId.store(std::thread::id{}, std::memory_order_release);
   }
 
   /// \brief Deferred self-destruction; see EngineBase. Called ONLY on the I/O
@@ -181,6 +182,9 @@ public:
     }
     _loop = std::thread([this]
     {
+      // Published for getIoThreadId(): other threads must not read _loop itself
+      // (start()/stop()/detach mutate it concurrently with their guard checks).
+      _ioThreadId.store(std::this_thread::get_id(), std::memory_order_release);
       sigset_t sigpipeSet;
       sigemptyset(&sigpipeSet);
       sigaddset(&sigpipeSet, SIGPIPE);
@@ -212,6 +216,7 @@ public:
     enqueue(Cmd::shutdown());
     if (_loop.joinable())
       _loop.join();
+    _ioThreadId.store(std::thread::id{}, std::memory_order_release);
   }
 
   ListenResult addListener(const std::string &bind, std::uint16_t port, TlsMode tls) override
@@ -324,7 +329,10 @@ public:
   }
   bool close(SessionId sid) override { return enqueue(Cmd::close(sid)); }
   bool isRunning() const override { return _running.load(std::memory_order_acquire); }
-  std::thread::id getIoThreadId() const override { return _loop.get_id(); }
+  std::thread::id getIoThreadId() const override
+  {
+    return _ioThreadId.load(std::memory_order_acquire);
+  }
   TransportStats getStats() const override
   {
     TransportStats ts;
@@ -1741,6 +1749,7 @@ private:
   // without revisiting this invariant.
   int _epollFd{-1}, _eventFd{-1}, _timerFd{-1};
   std::thread _loop;
+  std::atomic<std::thread::id> _ioThreadId{}; // id of the running I/O thread, default id otherwise
   // Deferred self-destruct deleter (delete-this-at-thread-end). Written/read
   // ONLY on the I/O thread (set pre-detach, run post-loop()); no synchronization.
   std::function<void()> _selfDestruct;
